@@ -13,8 +13,11 @@
 package simrt
 
 import (
+	"cmp"
 	"fmt"
+	"iter"
 	"runtime"
+	"slices"
 	"sync"
 	"sync/atomic"
 	"unsafe"
@@ -36,6 +39,7 @@ const (
 	evYield evKind = iota
 	evBlocked
 	evDone
+	evPerm // the task asks the scheduler for a permutation (iteration order of a map)
 )
 
 type task struct {
@@ -49,6 +53,8 @@ type task struct {
 	fn        func()
 	panicVal  any
 	cw        []cwatch // Go memory handed to C by this task and not yet re-examined
+	permN     int      // evPerm: size of the requested permutation
+	perm      []int    // evPerm: the scheduler's answer
 }
 
 // Sim is one simulated execution of a set of tasks.
@@ -72,6 +78,7 @@ type Sim struct {
 	SwitchInCrit int
 	lockDepth    int
 	Switches     int
+	MapOrders    int // range-over-map loops whose order was drawn from the choice stream
 	CArgs        int // Go objects handed to C by tasks
 	CWrites      int // of which modified by C
 	cobjs        []cobj
@@ -299,7 +306,22 @@ func (s *Sim) Run() []any {
 		}
 		pick.started = true
 		pick.wake <- struct{}{}
-		<-s.toSched
+		for ev := <-s.toSched; ev == evPerm; ev = <-s.toSched {
+			// iteration order of a map inside the library: a permutation from the choice stream
+			// (all zeros = sorted order); the task continues at once
+			n := pick.permN
+			perm := make([]int, n)
+			for i := range perm {
+				perm[i] = i
+			}
+			for i := 0; i < n-1 && i < 16; i++ {
+				j := i + s.choose(n-i, "maporder")
+				perm[i], perm[j] = perm[j], perm[i]
+			}
+			pick.perm = perm
+			s.MapOrders++
+			pick.wake <- struct{}{}
+		}
 	}
 	s.cur = nil
 	S = nil
@@ -633,4 +655,63 @@ func flushC(t *task) {
 		}
 	}
 	t.cw = t.cw[:0]
+}
+
+// ---- iteration order of maps -------------------------------------------------------------
+
+// Ordered replaces `range m` over a map in the instrumented library. Go randomises the
+// iteration order per execution; with a yield before every statement that alone would make
+// two executions of one seed differ. Outside a simulation the order is the sorted one; inside
+// one it is a permutation of the sorted keys drawn by the scheduler from the choice stream,
+// so that order-dependent behaviour is explored, recorded and replayed like any other choice.
+// Entries deleted by the loop body before they are reached are skipped, as `range` does.
+func Ordered[M ~map[K]V, K cmp.Ordered, V any](m M) iter.Seq2[K, V] {
+	keys := make([]K, 0, len(m))
+	for k := range m {
+		keys = append(keys, k)
+	}
+	slices.Sort(keys)
+	if p := mapPerm(len(keys)); p != nil {
+		pk := make([]K, len(keys))
+		for i, j := range p {
+			pk[i] = keys[j]
+		}
+		keys = pk
+	}
+	return func(yield func(K, V) bool) {
+		for _, k := range keys {
+			v, ok := m[k]
+			if !ok {
+				continue
+			}
+			if !yield(k, v) {
+				return
+			}
+		}
+	}
+}
+
+//go:norace
+func mapPerm(n int) []int {
+	s := S
+	if s == nil || n < 2 {
+		return nil
+	}
+	t := s.cur
+	if t == nil {
+		return nil
+	}
+	t.permN = n
+	t.perm = nil
+	handoff(s, t, evPerm)
+	if t.perm == nil {
+		return nil
+	}
+	// copy by hand inside this norace function: the scheduler wrote t.perm without a
+	// happens-before edge the detector knows of (hand-offs are hidden from it on purpose)
+	out := make([]int, n)
+	for i := range out {
+		out[i] = t.perm[i]
+	}
+	return out
 }
